@@ -336,4 +336,4 @@ def run(case, ctx):
 
 def stages(tier):
     return [{"name": "inject", "kind": "hyp", "strategy": strategy, "run": run,
-             "examples": {"quick": 1500, "thorough": 20000}, "shards": 16}]
+             "examples": {"quick": 1500, "thorough": 60000}, "shards": 16}]
